@@ -140,6 +140,11 @@ class Report:
         with open(evp + ".tmp", "w") as fh:
             json.dump(ev, fh, indent=1, sort_keys=True)
         os.replace(evp + ".tmp", evp)
+        # the complete list of obligations of this run (the evidence file carries counts and samples only)
+        obd = os.path.join(evdir, "obligations")
+        os.makedirs(obd, exist_ok=True)
+        with open(os.path.join(obd, "%s.json" % self.prop), "w") as fh:
+            json.dump([{k: v for k, v in o.items() if v is not None} for o in self.obligations], fh, indent=0, sort_keys=True)
         print("== %s (%s): %d obligations, %d discharged, %d known finding(s), %d violation(s), %.1fs" % (
             self.prop, self.tier, n_ob, n_ok, len(knownf), len(viol), wall))
         for r, c in sorted(rules.items()):
